@@ -46,6 +46,117 @@ func c19(c *Ctx) {
 	c.queueClose()
 	c.quitAwareBlocking()
 	c.lockOrder()
+	c.stickySignals()
+}
+
+// ---- R19.9 ---------------------------------------------------------------------------------
+
+func (c *Ctx) stickySignals() {
+	P, R := c.P, c.R
+	R.Explain("R19.9", "termination signals are sticky: an unbuffered chan struct{} field (done/quit/stop channels) is signalled only by close(); a send on it - blocking or in a select with default - is lost or blocks when the receiver is busy, so the session/goroutine it should stop never stops and the WaitGroup its owner waits on never drains.  A chan struct{} field that is sent on must be created with a capacity (semaphore idiom).")
+	type info struct {
+		fld      *types.Var
+		owner    string
+		sends    []ssa.Instruction
+		buffered bool
+		unbuf    bool
+		closes   int
+	}
+	infos := map[*types.Var]*info{}
+	isSignal := func(v *types.Var) bool {
+		ch, ok := v.Type().Underlying().(*types.Chan)
+		if !ok {
+			return false
+		}
+		st, ok := ch.Elem().Underlying().(*types.Struct)
+		return ok && st.NumFields() == 0
+	}
+	get := func(fa *ssa.FieldAddr) *info {
+		fv := fieldOfAddr(fa)
+		if fv == nil || !isSignal(fv) {
+			return nil
+		}
+		if infos[fv] == nil {
+			owner := ""
+			if nt := engine.NamedOf(fa.X.Type()); nt != nil {
+				owner = nt.Obj().Name()
+			}
+			infos[fv] = &info{fld: fv, owner: owner}
+		}
+		return infos[fv]
+	}
+	chanField := func(v ssa.Value) *ssa.FieldAddr {
+		if u, ok := v.(*ssa.UnOp); ok && u.Op == token.MUL {
+			if fa, ok := u.X.(*ssa.FieldAddr); ok {
+				return fa
+			}
+		}
+		return nil
+	}
+	for _, f := range c.productFuncs() {
+		for _, b := range f.Blocks {
+			for _, in := range b.Instrs {
+				switch t := in.(type) {
+				case *ssa.Send:
+					if fa := chanField(t.Chan); fa != nil {
+						if i := get(fa); i != nil {
+							i.sends = append(i.sends, in)
+						}
+					}
+				case *ssa.Select:
+					for _, st := range t.States {
+						if st.Dir == types.SendOnly {
+							if fa := chanField(st.Chan); fa != nil {
+								if i := get(fa); i != nil {
+									i.sends = append(i.sends, in)
+								}
+							}
+						}
+					}
+				case *ssa.Store:
+					if fa, ok := t.Addr.(*ssa.FieldAddr); ok {
+						if i := get(fa); i != nil {
+							if mk, ok := t.Val.(*ssa.MakeChan); ok {
+								if k, ok := mk.Size.(*ssa.Const); ok && k.Int64() == 0 {
+									i.unbuf = true
+								} else {
+									i.buffered = true
+								}
+							}
+						}
+					}
+				case ssa.CallInstruction:
+					if bi, ok := t.Common().Value.(*ssa.Builtin); ok && bi.Name() == "close" {
+						if fa := chanField(t.Common().Args[0]); fa != nil {
+							if i := get(fa); i != nil {
+								i.closes++
+							}
+						}
+					}
+				}
+			}
+		}
+	}
+	n := 0
+	var names []string
+	byName := map[string]*info{}
+	for _, i := range infos {
+		k := i.owner + "." + i.fld.Name()
+		names = append(names, k)
+		byName[k] = i
+	}
+	sort.Strings(names)
+	for _, k := range names {
+		i := byName[k]
+		n++
+		pos := ""
+		if len(i.sends) > 0 {
+			pos = P.Pos(i.sends[0].Pos())
+		}
+		ok := len(i.sends) == 0 || (i.buffered && !i.unbuf)
+		R.Check(ok, "R19.9", "signal channel "+k, pos, fmtf("closed at %d site(s), never sent on (or buffered)", i.closes), k+" is an unbuffered signal channel but a value is sent on it: the signal is lost (non-blocking send) or the sender blocks while the receiver is busy; teardown (RemoveUser / Close) then waits for ever")
+	}
+	R.Min("R19.9", "chan struct{} fields", n, 5)
 }
 
 // ---- R19.3 ---------------------------------------------------------------------------------
